@@ -10,7 +10,7 @@ from gen_script import Gen
 
 PROP = "C01"
 NEEDS = ["model/Values.v", "model/Eval.v", "model/Loader.v", "model/Serialize.v", "model/Unparse.v", "model/Skeleton.v", "proofs/SerializeP.v",
-         "proofs/UnparseP.v", "proofs/RoundtripP.v", "extract/Extract.v"]
+         "proofs/UnparseP.v", "proofs/RoundtripP.v", "extract/Extract.v", "model/Render.v", "proofs/RenderP.v"]
 
 
 import re
@@ -77,8 +77,25 @@ def check_case(model, impl, text, stats, generations=3):
                 return "the serialised text is refused by the model (%s)" % mo["err"], d
             else:
                 stats["model_unspec"] = stats.get("model_unspec", 0) + 1
-            # structural tie of the Coq serialiser to the implementation's text: same skeleton
             import json
+            # the TEXT the model writes for this program (serialise, print, render: RenderP.ser_text_roundtrip says the model reads it
+            # back) is read by the IMPLEMENTATION as the same program
+            mt = json.loads(model.ask("SERTEXT", observe.enc("/"), observe.enc(text)))
+            if p.programtype["name"] == "tdm" and any(re.fullmatch(r"A[0-9]+", str(k_)) for k_ in p.variables):
+                pass        # names like the hoisted arrays': outside the model serialiser's theorem (wf_prog.wf_vars), see below
+            elif mt is None:
+                stats["model_text_undefined"] = stats.get("model_text_undefined", 0) + 1
+            elif NONFINITE.search(STRINGS.sub('""', mt)) is None:
+                try:
+                    pm = impl.loads(mt)
+                except Exception as e:  # noqa: BLE001
+                    return "the text the model serialiser writes for this program is refused by the implementation: %s: %s" % (type(e).__name__, str(e)[:150]), mt
+                mo0 = observe.model_loads(model, text)
+                dm = observe.cmp_prog(mo0["v"], pm, stats, check_vars=False) if mo0["out"] == "ok" else []
+                if dm:
+                    return "the text the model serialiser writes denotes (by the implementation) a different program: " + "; ".join(dm[:3]), mt
+                stats["model_text_read_by_impl"] = stats.get("model_text_read_by_impl", 0) + 1
+            # structural tie of the Coq serialiser to the implementation's text: same skeleton
             a = json.loads(model.ask("SERSKEL", observe.enc("/"), observe.enc(text)))
             b = json.loads(model.ask("TEXTSKEL", observe.enc(d)))
             if p.programtype["name"] == "tdm" and any(re.fullmatch(r"A[0-9]+", str(k_)) for k_ in p.variables):
